@@ -315,6 +315,15 @@ def impl1(case):
             return None
         except Exception as e:  # noqa
             return exc_code(e)
+    if op == 34:
+        _, cps, which = case
+        try:
+            t = dns.tokenizer.Token(dns.tokenizer.IDENTIFIER, "".join(chr(c) for c in cps), True)
+            if which == 0:
+                return [ord(c) for c in t.unescape().value]
+            return list(t.unescape_to_bytes().value)
+        except Exception as e:  # noqa
+            return tok_exc_code(e)
     if op == 40:
         return impl_msg(case)
     if op == 50:
@@ -843,6 +852,18 @@ def cases(ctx):
         rdlen = len(rd) if rng.random() < 0.8 else rng.choice([0, len(rd) + 1, max(0, len(rd) - 1), 70000])
         suf = bytes(rng.randrange(256) for _ in range(rng.choice([0, 0, 3])))
         yield "rdata_wire", [32, pre + rd + suf, c, t, len(pre), rdlen]
+    # -- Token.unescape / unescape_to_bytes: escapes over ASCII digits, decimal digits of other scripts,
+    #    isdigit()-only characters (superscripts, circled, Kharosthi), letters, backslashes
+    esc_atoms = [0x31, 0x32, 0x35, 0x39, 0x30, 0x663, 0x969, 0xFF13, 0xB2, 0xB9, 0x2460, 0x10A40, 0x61, 0x5C, 0x2E, 0xD800]
+    import itertools as _it
+    for n in (1, 2, 3):
+        atoms = (esc_atoms[:12] + [0x61]) if n < 3 else [0x31, 0x39, 0x663, 0xFF13, 0xB2, 0x2460, 0x61]
+        for combo in _it.product(atoms, repeat=n):
+            for which in (0, 1):
+                yield "unescape", [34, [0x5C] + list(combo), which]
+    for _ in range(ctx.n(300, 4000)):
+        v = [rng.choice(esc_atoms) for _ in range(rng.choice([1, 2, 3, 4, 5, 6, 8]))]
+        yield "unescape", [34, v, rng.randrange(2)]
     # -- dns.edns.option_from_wire, the direct option API (every option class)
     for _ in range(ctx.n(300, 4000)):
         ot = rng.choice([65001, 4, 100, 3, 8, 8, 8, 8, 10, 10, 15, 15, 18, 22, 23, 24, 25])
@@ -939,6 +960,9 @@ def oracle(ctx, kind, case, out):
     elif op in (31, 32, 50, 60):
         if foreign(out):
             fail("non-library exception: " + out.text)
+    elif op == 34:
+        if foreign(out) and not (out.code == 103 and case[2] == 1 and has_surrogate(case[1])):
+            fail("Token.unescape raised a non-library exception: " + out.text)
     elif op == 33:
         # the direct option API documents (and tests/test_edns.py pins) exactly ValueError for a
         # malformed ECS / COOKIE option; anything else foreign is a violation
@@ -1121,7 +1145,7 @@ def extra(ctx):
         # deterministic sweeps first: every specimen of every type - each token replaced by each
         # boundary token, every truncation and octet substitution of its wire form, and the record
         # inside a message cut at every length, strict and continue_on_error
-        sw = [(what, i, procs) for what in ("text", "stretch", "wire", "msg") for i in range(procs)]
+        sw = [(what, i, procs) for what in ("text", "stretch", "wire", "msg", "esc") for i in range(procs)]
         it = pool.imap_unordered(P.sweep_batch, sw)
         for _ in sw:
             try:
